@@ -22,49 +22,35 @@ theorem allAdjust_no_eof : ∀ (l : List Msg), allAdjust l → Msg.eof ∉ l
   | .eof :: _, h => by simp [allAdjust] at h
   | .close :: _, h => by simp [allAdjust] at h
 
-theorem flushTail_eofMsg (c : Chan) (hm : Msg.eof ∈ (flushTail c).2) : (flushTail c).1.sendState = .eof := by
-  unfold flushTail at hm ⊢
-  cases hb : c.sendBuf with
-  | nil =>
-    simp only [hb] at hm ⊢
-    cases hs : c.sendState <;> simp only [hs] at hm ⊢
-    all_goals first
-      | rfl
-      | (exfalso; simp at hm; done)
-      | (exfalso; unfold closeSend sendPkt at hm; simp only [hs] at hm; split at hm <;> simp at hm)
-  | cons p rest =>
-    simp only [hb] at hm
-    simp at hm
+/-- where an EOF message on the wire comes from: the send half ends in `eof`, or a pending EOF was flushed in
+    front of CLOSE (`_send_eof_pending`, fix d334dad) -/
+theorem flushSend_eofMsg (c c' : Chan) (ms : List Msg) (hw : WFs c) (h : flushSend c = some (c', ms))
+    (hm : Msg.eof ∈ ms) : c'.sendState = .eof ∨ (c.sendState = .closePending ∧ c.sendEofPending = true) :=
+  (flushSend_spec c c' ms hw h).eofMsg hm
 
-theorem flushSend_eofMsg (c c' : Chan) (ms : List Msg) (h : flushSend c = some (c', ms)) (hm : Msg.eof ∈ ms) :
-    c'.sendState = .eof := by
-  unfold flushSend at h
-  split at h
-  · simp at h
-  · rename_i c1 ms1 hfd
-    simp only [Option.some.injEq, Prod.mk.injEq] at h
-    obtain ⟨rfl, rfl⟩ := h
-    obtain ⟨_, _, _, _, _, _, hall, _⟩ := flushData_spec _ _ _ _ hfd
-    rcases List.mem_append.mp hm with hm | hm
-    · exact absurd hm (allData_no_eof _ hall)
-    · exact flushTail_eofMsg c1 hm
-
-theorem writeEof_eofMsg (c c' : Chan) (ms : List Msg) (h : writeEof c = some (c', ms)) (hm : Msg.eof ∈ ms) :
-    c'.sendState = .eof := by
+theorem writeEof_eofMsg (c c' : Chan) (ms : List Msg) (hw : WFs c) (h : writeEof c = some (c', ms))
+    (hm : Msg.eof ∈ ms) : c'.sendState = .eof := by
   unfold writeEof at h
   split at h
-  · exact flushSend_eofMsg _ _ _ h hm
+  · rename_i hs
+    have hw0 : WFs { c with sendState := .eofPending } :=
+      ⟨by simp only [ne_eq, reduceCtorEq, not_false_eq_true, iff_true]; exact hw.chanOpen.mpr (by simp [hs]),
+       by simp⟩
+    rcases flushSend_eofMsg _ _ _ hw0 h hm with h1 | ⟨h1, _⟩
+    · exact h1
+    · cases h1
   · simp only [Option.some.injEq, Prod.mk.injEq] at h
     obtain ⟨_, rfl⟩ := h
     simp at hm
 
-theorem flushRecv_eofMsg (c c' : Chan) (ms : List Msg) (os : List Out) (h : flushRecv c = some (c', ms, os))
-    (hm : Msg.eof ∈ ms) : c'.sendState = .eof := by
+theorem flushRecv_eofMsg (c c' : Chan) (ms : List Msg) (os : List Out) (hw : WFs c)
+    (h : flushRecv c = some (c', ms, os)) (hm : Msg.eof ∈ ms) : c'.sendState = .eof := by
   unfold flushRecv at h
   have hd := drainRecv_spec c.recvBuf c
   generalize drainRecv c c.recvBuf = r at *
   obtain ⟨c1, left, ms1, os1⟩ := r
   simp only at hd h
+  have e1 := hd.eff hw
   split at h
   · simp at h
   · rename_i c2 ms2 os2 hes
@@ -84,7 +70,9 @@ theorem flushRecv_eofMsg (c c' : Chan) (ms : List Msg) (os : List Out) (h : flus
           · rename_i c3 ms3 hwe
             simp only [Option.some.injEq, Prod.mk.injEq] at hes
             obtain ⟨rfl, rfl, rfl⟩ := hes
-            exact writeEof_eofMsg _ _ _ hwe hm2
+            have hw2 : WFs { { c1 with recvBuf := left } with recvState := .eof } :=
+              ⟨e1.wfs.chanOpen, e1.wfs.drained⟩
+            exact writeEof_eofMsg _ _ _ hw2 hwe hm2
         · simp only [Option.some.injEq, Prod.mk.injEq] at hes
           obtain ⟨_, rfl, _⟩ := hes
           simp at hm2
@@ -98,33 +86,49 @@ theorem sendPkt_no_eof (c : Chan) (m : Msg) (h : m ≠ .eof) : Msg.eof ∉ sendP
   · simp only [List.mem_singleton]; exact fun h2 => h h2.symm
   · simp
 
-/-- an endpoint that puts EOF on the wire ends the step in send state `eof` -/
-theorem step_eofMsg (c c' : Chan) (ev : Ev) (ms : List Msg) (os : List Out)
-    (h : step c ev = .ok (c', ms, os)) (hm : Msg.eof ∈ ms) : c'.sendState = .eof := by
+/-- an endpoint that puts EOF on the wire ends the step in send state `eof`, or flushed an EOF that was pending
+    when the application closed -/
+theorem step_eofMsg (c c' : Chan) (ev : Ev) (ms : List Msg) (os : List Out) (hw : WF c)
+    (h : step c ev = .ok (c', ms, os)) (hm : Msg.eof ∈ ms) :
+    c'.sendState = .eof ∨ c.sendEofPending = true ∨ (ev = .close ∧ c.sendState = .eofPending) := by
+  have hs := hw.s
   cases ev with
   | write dt bs =>
-    obtain ⟨_, _, _, ⟨_, _, hm0⟩ | ⟨_, h1⟩⟩ := step_write_ok h
+    obtain ⟨hso, _, _, ⟨_, _, hm0⟩ | ⟨_, h1⟩⟩ := step_write_ok h
     · rw [hm0] at hm; simp at hm
-    · exact flushSend_eofMsg _ _ _ h1 hm
-  | writeEof => exact writeEof_eofMsg _ _ _ (step_writeEof_ok h).1 hm
+    · have hw0 : WFs { c with sendBuf := c.sendBuf ++ [(bs, dt)] } :=
+        ⟨hs.chanOpen, by intro h2; simp [hso] at h2⟩
+      rcases flushSend_eofMsg _ _ _ hw0 h1 hm with h2 | ⟨h2, _⟩
+      · exact Or.inl h2
+      · rw [hso] at h2; cases h2
+  | writeEof => exact Or.inl (writeEof_eofMsg _ _ _ hs (step_writeEof_ok h).1 hm)
   | close =>
     obtain ⟨c1, h1, h2⟩ := step_close_ok h
-    have hs1 : c1.sendState = .eof := by
-      rcases h1 with ⟨_, _, h1⟩ | ⟨_, _, hm0⟩
-      · exact flushSend_eofMsg _ _ _ h1 hm
+    have hs1 : c1.sendState = .eof ∨ c.sendState = .eofPending := by
+      rcases h1 with ⟨_, hs2, h1⟩ | ⟨_, _, hm0⟩
+      · have hw0 : WFs { c with sendEofPending := decide (c.sendState = .eofPending), sendState := .closePending } :=
+          ⟨by simp only [ne_eq, reduceCtorEq, not_false_eq_true, iff_true]; exact hs.chanOpen.mpr hs2, by simp⟩
+        rcases flushSend_eofMsg _ _ _ hw0 h1 hm with h3 | ⟨_, h3⟩
+        · exact Or.inl h3
+        · exact Or.inr (by simpa using h3)
       · rw [hm0] at hm; simp at hm
-    rcases h2 with ⟨_, hc', _⟩ | ⟨_, hc', _⟩
-    · rw [hc', (discardRecv_spec c1).sendState]; exact hs1
-    · rw [hc']; exact hs1
+    rcases hs1 with hs1 | hs1
+    · left
+      rcases h2 with ⟨_, hc', _⟩ | ⟨_, hc', _⟩
+      · rw [hc', (discardRecv_spec c1).sendState]; exact hs1
+      · rw [hc']; exact hs1
+    · exact Or.inr (Or.inr ⟨rfl, hs1⟩)
   | pause => obtain ⟨_, rfl, _⟩ := step_pause_ok h; simp at hm
   | armPause k => obtain ⟨_, rfl, _⟩ := step_arm_ok h; simp at hm
   | resume =>
     rcases step_resume_ok h with ⟨_, h1⟩ | ⟨_, _, hm0, _⟩
-    · exact flushRecv_eofMsg _ _ _ _ h1 hm
+    · have hw0 : WFs { c with recvPaused := .no } := ⟨hs.chanOpen, hs.drained⟩
+      exact Or.inl (flushRecv_eofMsg _ _ _ _ hw0 h1 hm)
     · rw [hm0] at hm; simp at hm
   | startReading =>
     rcases step_start_ok h with ⟨_, h1⟩ | ⟨_, _, hm0, _⟩
-    · exact flushRecv_eofMsg _ _ _ _ h1 hm
+    · have hw0 : WFs { c with recvPaused := .no } := ⟨hs.chanOpen, hs.drained⟩
+      exact Or.inl (flushRecv_eofMsg _ _ _ _ hw0 h1 hm)
     · rw [hm0] at hm; simp at hm
   | recv m =>
     cases m with
@@ -138,17 +142,95 @@ theorem step_eofMsg (c c' : Chan) (ev : Ev) (ms : List Msg) (os : List Out)
         obtain ⟨sp, _⟩ := deliverData_spec c bs dt
         rw [ha] at sp
         exact absurd hm (allAdjust_no_eof _ sp.adj)
-    | adjust n => exact flushSend_eofMsg _ _ _ (step_recv_adjust_ok h).2.1 hm
-    | eof => exact flushRecv_eofMsg _ _ _ _ (step_recv_eof_ok h).2 hm
+    | adjust n =>
+      have hw0 : WFs { c with sendWindow := c.sendWindow + n } := ⟨hs.chanOpen, hs.drained⟩
+      rcases flushSend_eofMsg _ _ _ hw0 (step_recv_adjust_ok h).2.1 hm with h2 | ⟨_, h2⟩
+      · exact Or.inl h2
+      · exact Or.inr (Or.inl h2)
+    | eof =>
+      have hw0 : WFs { c with recvState := .eofPending } := ⟨hs.chanOpen, hs.drained⟩
+      exact Or.inl (flushRecv_eofMsg _ _ _ _ hw0 (step_recv_eof_ok h).2 hm)
     | close =>
       obtain ⟨_, ms1, h1, rfl⟩ := step_recv_close_ok h
+      obtain ⟨_, _, _, _, _, _, _, _, hwf⟩ := closeSend_spec c hs
+      have hw0 : WFs { (closeSend c).1 with recvEofPending := decide (c.recvState = .eofPending), recvState := .closePending } := ⟨hwf.chanOpen, hwf.drained⟩
       rcases List.mem_append.mp hm with hm | hm
       · exfalso
         unfold closeSend at hm
         split at hm
         · exact sendPkt_no_eof c .close (by simp) hm
         · simp at hm
-      · exact flushRecv_eofMsg _ _ _ _ h1 hm
+      · exact Or.inl (flushRecv_eofMsg _ _ _ _ hw0 h1 hm)
+
+/-- where a set `_send_eof_pending` comes from -/
+theorem step_sendFlag (c c' : Chan) (ev : Ev) (ms : List Msg) (os : List Out) (hw : WF c)
+    (h : step c ev = .ok (c', ms, os)) (hf : c'.sendEofPending = true) :
+    c.sendEofPending = true ∨ (ev = .close ∧ c.sendState = .eofPending) := by
+  have hs := hw.s
+  cases ev with
+  | write dt bs =>
+    obtain ⟨hso, _, _, ⟨_, hc, _⟩ | ⟨_, h1⟩⟩ := step_write_ok h
+    · rw [hc] at hf; exact Or.inl hf
+    · have hw0 : WFs { c with sendBuf := c.sendBuf ++ [(bs, dt)] } :=
+        ⟨hs.chanOpen, by intro h2; simp [hso] at h2⟩
+      exact Or.inl ((flushSend_spec _ _ _ hw0 h1).flagMono hf)
+  | writeEof =>
+    obtain ⟨_, _, _, _, _, _, _, _, _, h9, _⟩ := writeEof_spec _ _ _ hs (step_writeEof_ok h).1
+    exact Or.inl (h9 hf)
+  | close =>
+    obtain ⟨c1, h1, h2⟩ := step_close_ok h
+    have hf1 : c1.sendEofPending = true := by
+      rcases h2 with ⟨_, hc', _⟩ | ⟨_, hc', _⟩
+      · rw [hc'] at hf
+        have := (discardRecv_spec c1).cfg
+        unfold discardRecv at hf
+        simp only at hf
+        split at hf <;> exact hf
+      · rw [hc'] at hf; exact hf
+    rcases h1 with ⟨_, hs2, h1⟩ | ⟨_, hc1, _⟩
+    · have hw0 : WFs { c with sendEofPending := decide (c.sendState = .eofPending), sendState := .closePending } :=
+        ⟨by simp only [ne_eq, reduceCtorEq, not_false_eq_true, iff_true]; exact hs.chanOpen.mpr hs2, by simp⟩
+      have := (flushSend_spec _ _ _ hw0 h1).flagMono hf1
+      exact Or.inr ⟨rfl, by simpa using this⟩
+    · rw [hc1] at hf1; exact Or.inl hf1
+  | pause => obtain ⟨rfl, _, _⟩ := step_pause_ok h; exact Or.inl hf
+  | armPause k => obtain ⟨rfl, _, _⟩ := step_arm_ok h; exact Or.inl hf
+  | resume =>
+    rcases step_resume_ok h with ⟨_, h1⟩ | ⟨_, hc, _, _⟩
+    · have hw0 : WFs { c with recvPaused := .no } := ⟨hs.chanOpen, hs.drained⟩
+      exact Or.inl ((flushRecv_spec _ _ _ _ hw0 h1).sendFlagMono hf)
+    · rw [hc] at hf; exact Or.inl hf
+  | startReading =>
+    rcases step_start_ok h with ⟨_, h1⟩ | ⟨_, hc, _, _⟩
+    · have hw0 : WFs { c with recvPaused := .no } := ⟨hs.chanOpen, hs.drained⟩
+      exact Or.inl ((flushRecv_spec _ _ _ _ hw0 h1).sendFlagMono hf)
+    · rw [hc] at hf; exact Or.inl hf
+  | recv m =>
+    left
+    cases m with
+    | data dt bs =>
+      obtain ⟨_, _, _, ha⟩ := step_recv_data_ok h
+      rcases acceptData_cases c bs dt with ⟨_, h1⟩ | ⟨_, _, h1⟩ | ⟨_, _, _, h1⟩ | ⟨_, _, _, h1⟩
+      · rw [h1] at ha; cases ha; exact hf
+      · rw [h1] at ha; cases ha; exact hf
+      · rw [h1] at ha; cases ha; exact hf
+      · rw [h1] at ha
+        obtain ⟨sp, _⟩ := deliverData_spec c bs dt
+        rw [ha] at sp
+        rw [← sp.same.sendEofPending]; exact hf
+    | adjust n =>
+      have hw0 : WFs { c with sendWindow := c.sendWindow + n } := ⟨hs.chanOpen, hs.drained⟩
+      exact (flushSend_spec _ _ _ hw0 (step_recv_adjust_ok h).2.1).flagMono hf
+    | eof =>
+      have hw0 : WFs { c with recvState := .eofPending } := ⟨hs.chanOpen, hs.drained⟩
+      exact (flushRecv_spec _ _ _ _ hw0 (step_recv_eof_ok h).2).sendFlagMono hf
+    | close =>
+      obtain ⟨_, ms1, h1, _⟩ := step_recv_close_ok h
+      obtain ⟨_, _, _, _, _, _, _, _, hwf⟩ := closeSend_spec c hs
+      have hw0 : WFs { (closeSend c).1 with recvEofPending := decide (c.recvState = .eofPending), recvState := .closePending } := ⟨hwf.chanOpen, hwf.drained⟩
+      have := (flushRecv_spec _ _ _ _ hw0 h1).sendFlagMono hf
+      have h2 : (closeSend c).1.sendEofPending = c.sendEofPending := by unfold closeSend; split <;> rfl
+      rw [← h2]; exact this
 
 /-- how the send state can move in one step -/
 theorem step_sendTrans (c c' : Chan) (ev : Ev) (ms : List Msg) (os : List Out) (hw : WF c)
@@ -225,23 +307,36 @@ theorem step_sendTrans (c c' : Chan) (ev : Ev) (ms : List Msg) (os : List Out) (
       have hw0 : WFs { (closeSend c).1 with recvEofPending := decide (c.recvState = .eofPending), recvState := .closePending } := ⟨hwf.chanOpen, hwf.drained⟩
       exact Or.inr (Or.inr (Or.inr ((flushRecv_spec _ _ _ _ hw0 h1).eff.lateMono (Or.inr hst))))
 
-/-- the history flag `eofSig` covers the send states `eof_pending` and `eof` -/
-def EofLocal (c : Chan) (h : Hist) : Prop := (c.sendState = .eofPending ∨ c.sendState = .eof) → h.eofSig = true
+/-- the history flag `eofSig` covers the send states `eof_pending` and `eof` and a set `_send_eof_pending` -/
+def EofLocal (c : Chan) (h : Hist) : Prop :=
+  (c.sendState = .eofPending ∨ c.sendState = .eof ∨ c.sendEofPending = true) → h.eofSig = true
 
 theorem eofLocal_step (c c' : Chan) (ev : Ev) (ms : List Msg) (os : List Out) (h h0 : Hist) (hw : WF c)
     (hl : EofLocal c h) (hstep : step c ev = .ok (c', ms, os)) (h0e : h0.eofSig = h.eofSig) :
     EofLocal c' (h0.record c c' ms os) ∧ (h.eofSig = true → (h0.record c c' ms os).eofSig = true) := by
-  refine ⟨?_, ?_⟩
-  · intro hs'
-    simp only [Hist.record, h0e, Bool.or_eq_true, Bool.and_eq_true, decide_eq_true_eq]
+  have hmono : h.eofSig = true → (h0.record c c' ms os).eofSig = true := by
+    intro he; simp [Hist.record, h0e, he]
+  refine ⟨?_, hmono⟩
+  intro hs'
+  rcases hs' with hs' | hs' | hs'
+  · simp only [Hist.record, h0e, Bool.or_eq_true, Bool.and_eq_true, decide_eq_true_eq]
     rcases step_sendTrans c c' ev ms os hw hstep with ht | ⟨h1, h2⟩ | ⟨h1, _⟩ | ht
-    · left; exact hl (ht ▸ hs')
+    · left; exact hl (Or.inl (ht ▸ hs'))
     · right; exact ⟨h1, h2⟩
     · left; exact hl (Or.inl h1)
     · unfold SendLate at ht
-      rcases hs' with h3 | h3 <;> rcases ht with h4 | h4 <;> (rw [h3] at h4; cases h4)
-  · intro he
-    simp [Hist.record, h0e, he]
+      rcases ht with h4 | h4 <;> (rw [hs'] at h4; cases h4)
+  · simp only [Hist.record, h0e, Bool.or_eq_true, Bool.and_eq_true, decide_eq_true_eq]
+    rcases step_sendTrans c c' ev ms os hw hstep with ht | ⟨h1, h2⟩ | ⟨h1, _⟩ | ht
+    · left; exact hl (Or.inr (Or.inl (ht ▸ hs')))
+    · right; exact ⟨h1, h2⟩
+    · left; exact hl (Or.inl h1)
+    · unfold SendLate at ht
+      rcases ht with h4 | h4 <;> (rw [hs'] at h4; cases h4)
+  · apply hmono
+    rcases step_sendFlag c c' ev ms os hw hstep hs' with h1 | ⟨_, h1⟩
+    · exact hl (Or.inr (Or.inr h1))
+    · exact hl (Or.inl h1)
 
 structure EInv (s : Sys) : Prop where
   loc : ∀ x, EofLocal (s.ep x) (s.hist x)
@@ -301,7 +396,10 @@ theorem einv_step_core (s s' : Sys) (z : Side) (ev : Ev) (c' : Chan) (ms : List 
       intro hm
       rcases List.mem_append.mp hm with hm | hm
       · exact hmono (he.inFlight x hm)
-      · exact hloc' (Or.inr (step_eofMsg _ _ _ _ _ hstep hm))
+      · rcases step_eofMsg _ _ _ _ _ (hinv.wf x) hstep hm with h1 | h1 | ⟨_, h1⟩
+        · exact hloc' (Or.inr (Or.inl h1))
+        · exact hmono (he.loc x (Or.inr (Or.inr h1)))
+        · exact hmono (he.loc x (Or.inl h1))
     · rw [Side.other_other, hl1, hh2]
       intro hm
       have := he.inFlight z.other
@@ -575,6 +673,212 @@ theorem sinv_step (s s' : Sys) (ev : Event) (hinv : Inv s) (hsi : SInv s) (h : s
         · cases m <;> simp [Hist.recordRecv]
 
 theorem sinv_init (ca cb : SideCfg) : SInv (Sys.init ca cb) :=
+  ⟨fun x h => by cases x <;> simp [Sys.init] at h⟩
+
+/-! ### an EOF signalled by the application is put on the wire (fix d334dad) -/
+
+/-- a signalled EOF stays waiting or goes out, unless the peer's CLOSE kills the send half; and a send half that
+    reaches `eof` from `open` within one step has sent the EOF -/
+theorem step_sendWaiting (c c' : Chan) (ev : Ev) (ms : List Msg) (os : List Out) (hw : WF c)
+    (h : step c ev = .ok (c', ms, os)) :
+    (SendWaiting c → SendWaiting c' ∨ Msg.eof ∈ ms ∨ ev = .recv .close) ∧
+    (c.sendState = .opn → c'.sendState = .eof → Msg.eof ∈ ms) := by
+  have hs := hw.s
+  have keep : c'.sendState = c.sendState → c'.sendEofPending = c.sendEofPending →
+      (SendWaiting c → SendWaiting c' ∨ Msg.eof ∈ ms ∨ ev = .recv .close) ∧
+      (c.sendState = .opn → c'.sendState = .eof → Msg.eof ∈ ms) := by
+    intro h1 h2
+    refine ⟨fun hwt => Or.inl (by unfold SendWaiting at *; rw [h1, h2]; exact hwt), fun ho he => ?_⟩
+    rw [h1, ho] at he; cases he
+  have ofSend : ∀ {c0 : Chan}, SendSpec c0 c' ms → c0.sendState = c.sendState → c0.sendEofPending = c.sendEofPending →
+      (SendWaiting c → SendWaiting c' ∨ Msg.eof ∈ ms ∨ ev = .recv .close) ∧
+      (c.sendState = .opn → c'.sendState = .eof → Msg.eof ∈ ms) := by
+    intro c0 sp h1 h2
+    refine ⟨fun hwt => ?_, fun ho he => ?_⟩
+    · rcases sp.waiting (by unfold SendWaiting at *; rw [h1, h2]; exact hwt) with h3 | h3
+      · exact Or.inl h3
+      · exact Or.inr (Or.inl h3)
+    · rcases sp.trans with ht | ⟨ht, _⟩ | ⟨ht, _⟩
+      · rw [ht, h1, ho] at he; cases he
+      · rw [h1, ho] at ht; cases ht
+      · rw [h1, ho] at ht; cases ht
+  cases ev with
+  | write dt bs =>
+    obtain ⟨hso, _, _, ⟨_, hc, _⟩ | ⟨_, h1⟩⟩ := step_write_ok h
+    · exact keep (by rw [hc]) (by rw [hc])
+    · have hw0 : WFs { c with sendBuf := c.sendBuf ++ [(bs, dt)] } :=
+        ⟨hs.chanOpen, by intro h2; simp [hso] at h2⟩
+      exact ofSend (flushSend_spec _ _ _ hw0 h1) rfl rfl
+  | writeEof =>
+    obtain ⟨_, _, _, _, _, _, _, _, _, _, h10⟩ := writeEof_spec _ _ _ hs (step_writeEof_ok h).1
+    exact ⟨fun hwt => Or.inl (h10.1 hwt), h10.2⟩
+  | close =>
+    obtain ⟨c1, h1, h2⟩ := step_close_ok h
+    have hc1 : c'.sendState = c1.sendState ∧ c'.sendEofPending = c1.sendEofPending := by
+      rcases h2 with ⟨_, hc', _⟩ | ⟨_, hc', _⟩
+      · rw [hc']; refine ⟨(discardRecv_spec c1).sendState, ?_⟩
+        unfold discardRecv; simp only; split <;> rfl
+      · rw [hc']; exact ⟨rfl, rfl⟩
+    rcases h1 with ⟨hs1, hs2, h1⟩ | ⟨hl, hcc, hm⟩
+    · have hw0 : WFs { c with sendEofPending := decide (c.sendState = .eofPending), sendState := .closePending } :=
+        ⟨by simp only [ne_eq, reduceCtorEq, not_false_eq_true, iff_true]; exact hs.chanOpen.mpr hs2, by simp⟩
+      have sp := flushSend_spec _ _ _ hw0 h1
+      refine ⟨fun hwt => ?_, fun ho he => ?_⟩
+      · have hwt0 : SendWaiting { c with sendEofPending := decide (c.sendState = .eofPending), sendState := .closePending } := by
+          rcases hwt with h3 | ⟨h3, _⟩
+          · exact Or.inr ⟨rfl, by simp [h3]⟩
+          · exact absurd h3 hs1
+        rcases sp.waiting hwt0 with h3 | h3
+        · left; unfold SendWaiting at *; rw [hc1.1, hc1.2]; exact h3
+        · exact Or.inr (Or.inl h3)
+      · rw [hc1.1] at he
+        rcases sp.trans with ht | ⟨ht, _⟩ | ⟨_, ht⟩
+        · rw [ht] at he; cases he
+        · cases ht
+        · rw [ht] at he; cases he
+    · rw [hcc] at hc1
+      exact keep hc1.1 hc1.2
+  | pause => obtain ⟨rfl, _, _⟩ := step_pause_ok h; exact keep rfl rfl
+  | armPause k => obtain ⟨rfl, _, _⟩ := step_arm_ok h; exact keep rfl rfl
+  | resume =>
+    rcases step_resume_ok h with ⟨_, h1⟩ | ⟨_, hc, _, _⟩
+    · have hw0 : WFs { c with recvPaused := .no } := ⟨hs.chanOpen, hs.drained⟩
+      have sp := (flushRecv_spec _ _ _ _ hw0 h1).sendProg
+      exact ⟨fun hwt => Or.inl (sp.1 hwt), sp.2⟩
+    · exact keep (by rw [hc]) (by rw [hc])
+  | startReading =>
+    rcases step_start_ok h with ⟨_, h1⟩ | ⟨_, hc, _, _⟩
+    · have hw0 : WFs { c with recvPaused := .no } := ⟨hs.chanOpen, hs.drained⟩
+      have sp := (flushRecv_spec _ _ _ _ hw0 h1).sendProg
+      exact ⟨fun hwt => Or.inl (sp.1 hwt), sp.2⟩
+    · exact keep (by rw [hc]) (by rw [hc])
+  | recv m =>
+    cases m with
+    | data dt bs =>
+      obtain ⟨_, _, _, ha⟩ := step_recv_data_ok h
+      rcases acceptData_cases c bs dt with ⟨_, h1⟩ | ⟨_, _, h1⟩ | ⟨_, _, _, h1⟩ | ⟨_, _, _, h1⟩
+      · rw [h1] at ha; cases ha; exact keep rfl rfl
+      · rw [h1] at ha; cases ha; exact keep rfl rfl
+      · rw [h1] at ha; cases ha; exact keep rfl rfl
+      · rw [h1] at ha
+        obtain ⟨sp, _⟩ := deliverData_spec c bs dt
+        rw [ha] at sp
+        exact keep sp.same.sendState sp.same.sendEofPending
+    | adjust n =>
+      have hw0 : WFs { c with sendWindow := c.sendWindow + n } := ⟨hs.chanOpen, hs.drained⟩
+      exact ofSend (flushSend_spec _ _ _ hw0 (step_recv_adjust_ok h).2.1) rfl rfl
+    | eof =>
+      have hw0 : WFs { c with recvState := .eofPending } := ⟨hs.chanOpen, hs.drained⟩
+      have sp := (flushRecv_spec _ _ _ _ hw0 (step_recv_eof_ok h).2).sendProg
+      exact ⟨fun hwt => Or.inl (sp.1 hwt), sp.2⟩
+    | close =>
+      refine ⟨fun _ => Or.inr (Or.inr rfl), fun ho he => ?_⟩
+      obtain ⟨_, ms1, h1, _⟩ := step_recv_close_ok h
+      obtain ⟨_, _, _, hst, _, _, _, _, hwf⟩ := closeSend_spec c hs
+      have hw0 : WFs { (closeSend c).1 with recvEofPending := decide (c.recvState = .eofPending), recvState := .closePending } := ⟨hwf.chanOpen, hwf.drained⟩
+      have := (flushRecv_spec _ _ _ _ hw0 h1).eff.lateMono (Or.inr hst)
+      unfold SendLate at this
+      rcases this with h3 | h3 <;> (rw [he] at h3; cases h3)
+
+/-- once the application has signalled EOF (`write_eof()` while the send half was open) the EOF message has been
+    sent, or still waits behind buffered data, or the peer's application closed the channel -/
+structure GInvSig (s : Sys) : Prop where
+  sig : ∀ x, (s.hist x).eofSig = true →
+    (s.hist x).eofSent = true ∨ SendWaiting (s.ep x) ∨ (s.hist x.other).appClosed = true
+
+theorem siginv_step_core (s s' : Sys) (z : Side) (ev : Ev) (c' : Chan) (ms : List Msg) (os : List Out)
+    (linkz' : List Msg) (h0 : Hist) (hinv : Inv s) (hsg : GInvSig s)
+    (hstep : step (s.ep z) ev = .ok (c', ms, os))
+    (hlink : (∃ m, ev = .recv m ∧ s.link z = m :: linkz') ∨ ((∀ m, ev ≠ .recv m) ∧ linkz' = s.link z))
+    (h0s : h0.eofSent = (s.hist z).eofSent) (h0g : h0.eofSig = (s.hist z).eofSig)
+    (h0a : h0.appClosed = ((s.hist z).appClosed || decide (ev = .close)))
+    (he1 : s'.ep z = c') (he2 : s'.ep z.other = s.ep z.other)
+    (hh1 : s'.hist z = h0.record (s.ep z) c' ms os) (hh2 : s'.hist z.other = s.hist z.other) : GInvSig s' := by
+  obtain ⟨hw1, hw2⟩ := step_sendWaiting _ _ _ _ _ (hinv.wf z) hstep
+  refine ⟨?_⟩
+  intro x
+  rcases Side.eq_or_other x z with rfl | rfl
+  · rw [he1, hh1, hh2]
+    intro hsig
+    have hsent : Msg.eof ∈ ms → (h0.record (s.ep x) c' ms os).eofSent = true := by
+      intro hm; simp [Hist.record, hm]
+    have hsentMono : (s.hist x).eofSent = true → (h0.record (s.ep x) c' ms os).eofSent = true := by
+      intro hm; simp [Hist.record, h0s, hm]
+    simp only [Hist.record, h0g, Bool.or_eq_true, Bool.and_eq_true, decide_eq_true_eq] at hsig
+    rcases hsig with hsig | ⟨ho, hp⟩
+    · rcases hsg.sig x hsig with h1 | h1 | h1
+      · exact Or.inl (hsentMono h1)
+      · rcases hw1 h1 with h2 | h2 | h2
+        · exact Or.inr (Or.inl h2)
+        · exact Or.inl (hsent h2)
+        · -- the peer's CLOSE arrived while our EOF was still waiting: the peer's application closed
+          right; right
+          rcases hlink with ⟨m, hm, hl⟩ | ⟨hne, _⟩
+          · rw [h2] at hm; cases hm
+            have hrev := (hinv.dir x.other).link
+            rw [Side.other_other, hl] at hrev
+            simp only [LinkOK] at hrev
+            have hsl : SendLate (s.ep x.other) := Or.inr (sStage_two hrev.2.2)
+            rcases (hinv.g x.other).closedBy hsl with h3 | h3
+            · exact h3
+            · exfalso
+              have hl2 := (hinv.dir x).link
+              rw [h3] at hl2
+              obtain ⟨_, hss⟩ := LinkOK_two _ _ hl2
+              have := sStage_two hss
+              rcases h1 with h4 | ⟨h4, _⟩ <;> (rw [this] at h4; cases h4)
+          · exact absurd h2 (hne _)
+      · exact Or.inr (Or.inr h1)
+    · rcases hp with hp | hp
+      · exact Or.inr (Or.inl (Or.inl hp))
+      · exact Or.inl (hsent (hw2 ho hp))
+  · rw [Side.other_other, he2, hh1, hh2]
+    intro hsig
+    rcases hsg.sig z.other hsig with h1 | h1 | h1
+    · exact Or.inl h1
+    · exact Or.inr (Or.inl h1)
+    · rw [Side.other_other] at h1
+      right; right
+      simp [Hist.record, h0a, h1]
+
+theorem siginv_step (s s' : Sys) (ev : Event) (hinv : Inv s) (hsg : GInvSig s) (h : s.step ev = .ok s') :
+    GInvSig s' := by
+  cases ev with
+  | app z e =>
+    simp only [Sys.step] at h
+    split at h
+    · split at h
+      · simp only [Except.ok.injEq] at h; subst h; exact hsg
+      · simp at h
+    · rename_i r hr
+      simp only [Except.ok.injEq] at h
+      subst h
+      obtain ⟨c', ms, os⟩ := r
+      refine siginv_step_core s _ z e.toEv c' ms os (s.link z) ((s.hist z).recordApp e) hinv hsg hr
+        (Or.inr ⟨fun m => AppEv.toEv_not_recv e m, rfl⟩) ?_ ?_ ?_ (by simp [Sys.apply]) (by simp [Sys.apply])
+        (by simp [Sys.apply]) (by simp [Sys.apply])
+      · cases e <;> rfl
+      · cases e <;> rfl
+      · cases e <;> simp [Hist.recordApp, AppEv.toEv]
+  | deliver z =>
+    simp only [Sys.step] at h
+    split at h
+    · simp only [Except.ok.injEq] at h; subst h; exact hsg
+    · rename_i m rest hl
+      split at h
+      · simp at h
+      · rename_i r hr
+        simp only [Except.ok.injEq] at h
+        subst h
+        obtain ⟨c', ms, os⟩ := r
+        refine siginv_step_core s _ z (.recv m) c' ms os rest ((s.hist z).recordRecv m) hinv hsg hr
+          (Or.inl ⟨m, rfl, hl⟩) ?_ ?_ ?_ (by simp [Sys.apply]) (by simp [Sys.apply])
+          (by simp [Sys.apply]) (by simp [Sys.apply])
+        · cases m <;> rfl
+        · cases m <;> rfl
+        · cases m <;> simp [Hist.recordRecv]
+
+theorem siginv_init (ca cb : SideCfg) : GInvSig (Sys.init ca cb) :=
   ⟨fun x h => by cases x <;> simp [Sys.init] at h⟩
 
 end AsyncsshModel.Channel
